@@ -91,3 +91,105 @@ def check_cases(cases: list[dict[str, Any]], workers: int = 2,
         f'INVARIANT {i}\n' for i in invs) + 'CHECK_DEADLOCK FALSE\n'
     return run_tlc(name, cfg_text=cfg, extra_modules={name: mod},
                    workers=workers, deadlock=False, timeout=1800)
+
+
+def design_cases(max_w: int, limit: int | None = None, seed: int = 0,
+                 ) -> list[dict[str, Any]]:
+    """Design-level cases for KfacDist.tla (no recorded trace): every world
+    size / gradient-worker count, layer lists with the assignment the real
+    KAISAAssignment computes, method / prediv / symmetry / bucketing / hook
+    flags, one canonical history that visits every kind of call."""
+    import itertools
+    import random
+    from kfac.assignment import KAISAAssignment
+
+    sizes = [(3, 2), (5, 4), (2, 2), (4, 7)]
+    out = []
+    for W in range(1, max_w + 1):
+        for k in [d for d in range(1, W + 1) if W % d == 0]:
+            for nl in (1, 2, 3, 4):
+                for colocate in (True, False):
+                    work = {f'l{i}': {'A': float(sizes[i][0] ** 3),
+                                      'G': float(sizes[i][1] ** 3)}
+                            for i in range(nl)}
+                    views = [KAISAAssignment(
+                        {n: dict(f) for n, f in work.items()}, local_rank=r,
+                        world_size=W, grad_worker_fraction=k / W,
+                        group_func=lambda ranks: tuple(sorted(ranks)),
+                        colocate_factors=colocate) for r in range(W)]
+                    p = W // k
+                    layers = []
+                    for i, n in enumerate(work):
+                        layers.append({
+                            'name': n, 'a': sizes[i][0], 'g': sizes[i][1],
+                            'invA': views[0].inv_worker(n, 'A'),
+                            'invG': views[0].inv_worker(n, 'G'),
+                            'col': {r for r in range(W)
+                                    if views[r].is_grad_worker(n)}})
+                    row = [set(range((r // p) * p, (r // p + 1) * p))
+                           for r in range(W)]
+                    for method, prediv in (('eigen', True), ('eigen', False),
+                                           ('inverse', False)):
+                        if prediv and not colocate:
+                            continue
+                        for sym, cap, inhook in itertools.product(
+                                (False, True), (0, 100, 10 ** 7), (True, False)):
+                            hist = [
+                                {'act': 'train', 'events': 1 if inhook else 0,
+                                 'factorStep': False, 'refresh': False,
+                                 'hasInv': False},
+                                {'act': 'step', 'events': 0,
+                                 'factorStep': True, 'refresh': True,
+                                 'hasInv': False},
+                                {'act': 'train', 'events': 2 if inhook else 0,
+                                 'factorStep': False, 'refresh': False,
+                                 'hasInv': False},
+                                {'act': 'mem', 'events': 0,
+                                 'factorStep': False, 'refresh': False,
+                                 'hasInv': False},
+                                {'act': 'step', 'events': 0,
+                                 'factorStep': True, 'refresh': False,
+                                 'hasInv': False},
+                                {'act': 'load', 'events': 0,
+                                 'factorStep': False, 'refresh': False,
+                                 'hasInv': True},
+                                {'act': 'step', 'events': 0,
+                                 'factorStep': False, 'refresh': True,
+                                 'hasInv': False},
+                            ]
+                            out.append({
+                                'W': W, 'K': k, 'method': method,
+                                'prediv': prediv, 'sym': sym,
+                                'bucketed': cap > 0, 'cap': cap, 'fbytes': 4,
+                                'inhook': inhook, 'layers': layers,
+                                'row': row, 'hist': hist,
+                                'trace': [[] for _ in range(W)],
+                                'holders': []})
+    if limit is not None and len(out) > limit:
+        out = random.Random(seed).sample(out, limit)
+    return out
+
+
+def check_design(cases: list[dict[str, Any]], batch: int = 40,
+                 ) -> tuple[list[int], int, int]:
+    from concurrent.futures import ThreadPoolExecutor
+
+    def run(lo: int) -> tuple[list[int], int, int]:
+        b = cases[lo:lo + batch]
+        r = check_cases(b, invariants=['DesignOK'], workers=1)
+        bad: list[int] = []
+        if not r.ok:
+            start = 0
+            while start < len(b):
+                r1 = check_cases(b[start:], invariants=['DesignOK'], workers=1)
+                if r1.ok:
+                    break
+                k = max(1, len(r1.trace))
+                bad.append(lo + start + k - 1)
+                start += k
+        return bad, r.distinct, r.generated
+
+    with ThreadPoolExecutor(max_workers=8) as ex:
+        res = list(ex.map(run, range(0, len(cases), batch)))
+    return ([x for r in res for x in r[0]], sum(r[1] for r in res),
+            sum(r[2] for r in res))
